@@ -710,9 +710,10 @@ class PhrasePlugin(Plugin):
                     for t in tokens:
                         words.append(t.text)
                         char_ranges.append((sc + t.startchar, sc + t.endchar))
-                elif field.self_parsing():
+                elif field.self_parsing() or not field.indexed:
                     # No analyzer (e.g. BOOLEAN): the field interprets the
-                    # quoted text itself, errors come back in-band
+                    # quoted text itself, errors come back in-band (a field
+                    # that is not indexed at all gives an error query)
                     q = parser.term_query(fieldname, text, parser.termclass,
                                           boost=self.boost)
                     return attach(q, self)
